@@ -1,6 +1,6 @@
 (* Model of the WHOLE function tensorly/solvers/admm.py `admm` (Model/Nnls.v admm_none is only its n_const=None
    branch): rho, the loop `for iteration in range(n_iter_max)`, x_split by tl.solve, the call of proximal_operator with
-   admm's n_const / order (incl. the ways that call raises), the early return of the n_const=None branch, the dual
+   admm's n_const / order (order None read as 0 since /repo a5b9e5b; incl. the ways that call raises), the early return of the n_const=None branch, the dual
    update, the two residuals and the stopping rule, and the final `return x, x_split, dual_var` (x_split is unbound
    when the loop body never ran).  Written once over a record of field operations (executed at Qops, proved at Rops).
    tl.solve is an argument (contract hypothesis in the theorems; exact elimination in the correspondence).
@@ -46,16 +46,21 @@ Definition apply_constr (k : constr) (T : mat) : mat :=
   | KL2sq t => if is0 Op t then T else mmap (fun x => fdiv Op x (fadd Op (f1 Op) (fmul Op (two Op) t))) T
   end.
 
-(* proximal_operator(tensor, <constraint>, n_const=n_const, order=order) as admm calls it:
+(* proximal_operator(tensor, <constraint>, n_const=n_const, order=order) as admm calls it (repaired code, /repo a5b9e5b: admm
+   first reads its own default order=None as mode 0 -- `if order is None: order = 0` --, like proximal_operator's default):
    n_const None -> tensor;  otherwise validate_constraints builds lists of length n_const and returns constraints[order]:
-   order None -> TypeError, order >= n_const -> IndexError (Err); orders >= 0 only *)
+   order >= n_const -> IndexError (Err); orders >= 0 only *)
+Definition order_eff (order : option nat) : nat := match order with Some o => o | None => 0 end.
 Definition prox_call (n_const order : option nat) (k : constr) (T : mat) : res mat :=
   match n_const with
   | None => Ok T
-  | Some nc => match order with
-               | None => Err
-               | Some o => if Nat.ltb o nc then Ok (apply_constr k T) else Err
-               end
+  | Some nc => if Nat.ltb (order_eff order) nc then Ok (apply_constr k T) else Err
+  end.
+(* the rule before /repo a5b9e5b: order None was forwarded, constraints[None] raised TypeError *)
+Definition prox_call_before_a5b9e5b (n_const order : option nat) (k : constr) (T : mat) : res mat :=
+  match n_const, order with
+  | Some _, None => Err
+  | _, _ => prox_call n_const order k T
   end.
 
 Section Loop.
@@ -109,10 +114,11 @@ End Loop.
 
 (* admm(UtM, UtU, x, dual_var, n_iter_max, n_const, order, <one scalar constraint or none>, tol).
    Err = the call raises: n_iter_max = 0 (`return x, x_split, dual_var` with x_split never bound: UnboundLocalError), or
-   proximal_operator raises in the first iteration (order None with n_const given: TypeError; order >= n_const: IndexError).
+   proximal_operator raises in the first iteration (order >= n_const: IndexError).
    n_const None: the first iteration computes x_split, discards the (identity) proximal step, solves the normal
-   equations and returns. *)
-Definition admm (solve : mat -> mat -> mat) (n_const order : option nat) (k : constr)
+   equations and returns.  `pc` is the model of the proximal_operator call (prox_call; prox_call_before_a5b9e5b for the old rule). *)
+Definition admm_with (pc : option nat -> option nat -> constr -> mat -> res mat)
+           (solve : mat -> mat -> mat) (n_const order : option nat) (k : constr)
            (UtM UtU x dual : mat) (m r : nat) (n_iter_max : nat) (tol : F) : res (mat * mat * mat) :=
   match n_iter_max with
   | O => Err
@@ -121,7 +127,7 @@ Definition admm (solve : mat -> mat -> mat) (n_const order : option nat) (k : co
     | None => Ok (mtranspose Op m (solve (mtranspose Op r UtU) (mtranspose Op r UtM)),
                   admm_xsplit solve UtM UtU r x dual, dual)
     | Some nc =>
-      match prox_call n_const order k x with    (* only whether the call raises depends on (n_const, order) *)
+      match pc n_const order k x with    (* only whether the call raises depends on (n_const, order) *)
       | Err => Err
       | Ok _ =>
         match admm_loop solve (apply_constr k) UtM UtU m r tol n_iter_max x None dual with
@@ -131,5 +137,7 @@ Definition admm (solve : mat -> mat -> mat) (n_const order : option nat) (k : co
       end
     end
   end.
+Definition admm := admm_with prox_call.
+Definition admm_before_a5b9e5b := admm_with prox_call_before_a5b9e5b.
 
 End M.
